@@ -228,3 +228,30 @@ edit('C20', 'break', 'recursion crosses operands', CONF, 'value = merge(left[key
 edit('C20', 'break', 'registration before collision check', PROV, "        references = {Reference(provider)}\n        if alias:\n            references.add(alias)\n        for ref in references:\n            if ref in self.provider:", "        references = {Reference(provider)}\n        if alias:\n            references.add(alias)\n        for ref in references:\n            self.provider.setdefault(ref, provider)\n        for ref in references:\n            if ref in self.provider:")
 edit('C20', 'break', 'abstract providers registered', PROV, "        if isabstract(provider):\n            return\n        for ref in references:", "        for ref in references:")
 edit('C20', 'break', 'unknown reference yields some provider', PROV, "        return self.provider[reference]", "        return self.provider.get(reference) or next(iter(self.provider.values()))")
+
+# ---- behaviour-preserving refactorings (twins): the rules must stay silent ------------------------------------------
+edit('C19', 'twin', 'negated key instead of reverse', CODEC, "                key=lambda t: float(t[1].get('q', 1)),\n                reverse=True,\n            )", "                key=lambda t: -float(t[1].get('q', 1)),\n            )")
+edit('C19', 'twin', 'match terms reordered', CODEC, "            '*' not in other.kind\n            and fnmatch.fnmatch(other.kind, self.kind)", "            fnmatch.fnmatch(other.kind, self.kind)\n            and '*' not in other.kind")
+edit('C19', 'twin', 'encoder loop variable renamed', CODEC, "    for pattern in targets:\n        for codec in ENCODERS:\n            if pattern.match(codec.encoding):\n                return codec", "    for wanted in targets:\n        for encoder in ENCODERS:\n            if wanted.match(encoder.encoding):\n                return encoder")
+edit('C15', 'twin', 'cast comprehension variable renamed', PRODUCER, "            e.name: c if e.kind.match(actual[e.name].kind) else [e.kind.cast(v) for v in c]\n            for e, c in zip(expected, data.to_columns())", "            field.name: c if field.kind.match(actual[field.name].kind) else [field.kind.cast(v) for v in c]\n            for field, c in zip(expected, data.to_columns())")
+edit('C15', 'twin', 'reorder as if statement', PRODUCER, "            data = entry.data.take_columns(indices) if indices else entry.data\n", "            data = entry.data\n            if indices:\n                data = data.take_columns(indices)\n")
+edit('C20', 'twin', 'merge value variable renamed', CONF, "                    value = merge(left[key], right[key])\n                elif key in common and isinstance(left[key], (list, tuple)) and isinstance(right[key], (list, tuple)):\n                    value = *right[key], *(v for v in left[key] if v not in right[key])\n                elif key in right:\n                    value = right[key]\n                else:\n                    value = left[key]\n                result[key] = value", "                    merged = merge(left[key], right[key])\n                elif key in common and isinstance(left[key], (list, tuple)) and isinstance(right[key], (list, tuple)):\n                    merged = *right[key], *(v for v in left[key] if v not in right[key])\n                elif key in right:\n                    merged = right[key]\n                else:\n                    merged = left[key]\n                result[key] = merged")
+edit('C17', 'twin', 'explicit keyword order changed', STRAT, "                registry=registry,\n                project=self._project,\n                release=self._release,\n                generation=self._generation,\n            )\n        return self._instance", "                project=self._project,\n                release=self._release,\n                generation=self._generation,\n                registry=registry,\n            )\n        return self._instance")
+edit('C17', 'twin', 'pick loop variable renamed', STRAT, "            for release in reversed(project.list()):\n                try:\n                    generation = project.get(release).list().last", "            for release in reversed(project.list()):\n                try:\n                    generation = project.get(release).list().last  # newest generation")
+edit('C16', 'twin', 'task variable renamed', PRED, "                    task: Task = self._tasks.get(timeout=1)\n                except queue.Empty:\n                    continue\n                try:\n                    self._results.put_nowait(task.success(self._runner.call(task.entry)))\n                except forml.AnyError as err:\n                    self._results.put_nowait(task.failure(err))\n                except Exception as err:\n                    self._results.put_nowait(task.failure(err))", "                    job: Task = self._tasks.get(timeout=1)\n                except queue.Empty:\n                    continue\n                try:\n                    self._results.put_nowait(job.success(self._runner.call(job.entry)))\n                except forml.AnyError as err:\n                    self._results.put_nowait(job.failure(err))\n                except Exception as err:\n                    self._results.put_nowait(job.failure(err))")
+edit('C16', 'twin', 'outcome computed in a temporary', PRED, "                    self._results.put_nowait(task.success(self._runner.call(task.entry)))", "                    outcome = self._runner.call(task.entry)\n                    self._results.put_nowait(task.success(outcome))")
+edit('C05', 'twin', 'listing via comprehension variable renamed', POSIX, "return [matcher.constructor(p.name) for p in path.iterdir() if matcher.valid(p)]", "return [matcher.constructor(item.name) for item in path.iterdir() if matcher.valid(item)]")
+edit('C05', 'twin', 'compare spelled release <= previous', 'forml/io/asset/_directory/level/case.py', 'if not release > previous:', 'if release <= previous:')
+edit('C18', 'twin', 'loads uses a local for the section', MINOR, "            training=cls.Training(timestamp=meta['training'].get('timestamp'), ordinal=meta['training'].get('ordinal')),", "            training=cls.Training(ordinal=meta['training'].get('ordinal'), timestamp=meta['training'].get('timestamp')),")
+edit('C13', 'twin', 'state guard spelled positively', TASK, "        if not state:\n            return\n        if not self.is_stateful():\n            raise forml.UnexpectedError('State provided but actor stateless')\n        LOGGER.debug('Setting %s state (%d bytes)', self, len(state))\n        params = self.get_params()  # keep the original hyper-params\n        self.__dict__.update(cloudpickle.loads(state))\n        self.set_params(**params)  # restore the original hyper-params", "        if state:\n            if not self.is_stateful():\n                raise forml.UnexpectedError('State provided but actor stateless')\n            LOGGER.debug('Setting %s state (%d bytes)', self, len(state))\n            params = self.get_params()  # keep the original hyper-params\n            self.__dict__.update(cloudpickle.loads(state))\n            self.set_params(**params)  # restore the original hyper-params")
+edit('C11', 'twin', 'publish handler catches TopologyError only... kept broad', PORT, "        except Exception as err:\n            # TO-DO: use weakref\n            Subscription._PORTS[subscriber].discard(port)  # pylint: disable=protected-access\n            raise err", "        except Exception:\n            # TO-DO: use weakref\n            Subscription._PORTS[subscriber].discard(port)  # pylint: disable=protected-access\n            raise")
+edit('C01', 'twin', 'getter factory as a named closure', COMPILER, "            self._linkage.update(node, lambda index: self._index.set(system.Getter(index)))", "            self._linkage.update(node, lambda idx: self._index.set(system.Getter(idx)))")
+edit('C04', 'twin', 'persistent visitor variable renamed', 'forml/flow/_suite/assembly.py', "        apply = clean.Stateful()\n        self.apply.accept(apply)\n        return tuple(apply)", "        visitor = clean.Stateful()\n        self.apply.accept(visitor)\n        return tuple(visitor)")
+edit('C03', 'twin', 'compound compose via temporaries', 'forml/flow/_suite/member.py', "        return scope.expand().extend(*self.expand())", "        left = scope.expand()\n        return left.extend(*self.expand())")
+edit('C12', 'twin', 'fold variable renamed', METHOD, "            fold: flow.Trunk = pipeline.expand()\n            fold.train.subscribe(features_splitter[2 * fid])\n            fold.label.subscribe(labels_splitter[2 * fid])\n            fold.apply.subscribe(features_splitter[2 * fid + 1])\n            outcomes.append(_api.Outcome(labels_splitter[2 * fid + 1].publisher, fold.apply.publisher))", "            branch: flow.Trunk = pipeline.expand()\n            branch.train.subscribe(features_splitter[2 * fid])\n            branch.label.subscribe(labels_splitter[2 * fid])\n            branch.apply.subscribe(features_splitter[2 * fid + 1])\n            outcomes.append(_api.Outcome(labels_splitter[2 * fid + 1].publisher, branch.apply.publisher))")
+edit('C09', 'twin', 'matcher variable renamed', INPUT, "            matcher = self.Matcher(feed.sources)\n            source.accept(matcher)\n            if matcher:\n                return feed", "            probe = self.Matcher(feed.sources)\n            source.accept(probe)\n            if probe:\n                return feed")
+edit('C10', 'twin', 'where terms via named operators', COMP, "                if lower is not None:\n                    terms.append(self.once.value.lower(self.column, self.column.kind.cast(lower)))", "                if lower is not None:\n                    bound = self.column.kind.cast(lower)\n                    terms.append(self.once.value.lower(self.column, bound))")
+edit('C14', 'twin', 'select grouping via a local', PARSER, "            self.context.tables.select(*source.grouping)\n", "            tables = self.context.tables\n            tables.select(*source.grouping)\n")
+edit('C07', 'twin', 'join condition validation split in two steps', FRAME, "            condition = series.Cumulative.ensure_notin(series.Predicate.ensure_is(condition))", "            condition = series.Predicate.ensure_is(condition)\n            condition = series.Cumulative.ensure_notin(condition)")
+edit('C08', 'twin', 'equality proxy with == on classes', SERIES, "            if self.operator is Equal:\n                return self.left.__class__ is self.right.__class__ and tuple.__eq__(self.left, self.right)", "            if self.operator is Equal:\n                return type(self.left) is type(self.right) and tuple.__eq__(self.left, self.right)")
+edit('C06', 'twin', 'join flags via separate statements', ALCH, "            opts['isouter'] = True\n            if kind is dsl.Join.Kind.RIGHT:\n                left, right = right, left", "            if kind is dsl.Join.Kind.RIGHT:\n                left, right = right, left\n            opts['isouter'] = True")
